@@ -8,6 +8,7 @@ table, both over an index layer whose ground truth is "this probe is / is not th
 it, keyless hashes may alias an absent probe to an arbitrary node (so every unconfirmed use shows as a phantom link); the crate's own
 threads, if any, are explored as explicit schedules (each spawned closure atomic, every order of the pending ones)."""
 from .. import dt_graph, structural
+from . import common
 
 ASSUMPTIONS = ["boomphf's parallel builder returns a valid MPHF under every schedule (dependency code; its validity is the assumption "
                "under which slot-layout independence gives schedule independence)"]
@@ -20,3 +21,5 @@ def run(F, rep):
     rep.run(structural.own_concurrency, F, rep, "C19.3")
     rep.run(dt_graph.find_link_table, F, rep, "C19.4")
     rep.run(dt_graph.find_edges_table, F, rep, "C19.4")
+    # the index keys are the terminal k-mers of the nodes: Vmer::get_kmer on views of the packed store
+    rep.run(common.run_store_kmer_lemmas, F, rep, "C19.5")
